@@ -53,6 +53,10 @@ CHECKS["C09"] = ("runtime monitor: diagnostic count on unannotated real-world co
   "(a) Packages of the Go standard library and of the repository's dependencies that pass a precondition scan are analysed by the real binary under 2 (quick) / 3 (thorough) configurations; (b) generated multi-package programs whose every annotation is replaced by one of 12 near-miss shapes (mid-sentence, block comment, other letter case, longer word, commented-out, detached, ...) while all would-be violations stay. Any diagnostic is a violation.",
   "precondition scanner of the harness; module-cache corpora are analysed with -test=false because their test dependencies are not in the offline cache", "DESIGN.md §3 C09")
 
+CHECKS["C11"] = ("runtime monitor + Go race detector: diagnostic sets across schedules (repeats, sequential, GOMAXPROCS, argument order, perturbed in-process schedules) must be identical; race-detector builds must report zero DATA RACE blocks",
+  "Generated modules with @ignore comments in every package are analysed under 3 configurations (incl. non-empty exclude-checks) and ~13 schedules each: 3 repeats, -debug=p, GOMAXPROCS 1/4, 2 argument permutations, the in-process driver with PRNG yields/sleeps at every Analyzer.Run entry (one of them under -race), the -race binary, and 4 concurrent Analyze calls in one -race process; all (file,line,col,analyzer,message) sets must equal the first parallel run, and no DATA RACE block may be logged (GORACE log_path, blocks counted and de-duplicated by top frames). Evidence records overlapping actions and distinct completion orders actually seen.",
+  "the race detector only sees code the workloads execute concurrently; vet-driver schedules are process-level and not perturbed", "DESIGN.md §3 C11")
+
 PENDING_REASON = "monitor for this property is still under construction in this round (designed in DESIGN.md §3; not claimed until its check is silent on the unchanged tree)"
 def main():
     checks = []
